@@ -132,6 +132,14 @@ int coefficient_gcd_pp_univariate(const lp_polynomial_context_t* ctx,
     tracef("C2 = "); coefficient_print(ctx, C2, trace_out); tracef("\n");
   }
 
+#ifdef LIBPOLY_VERIF
+  {
+    extern int lp_verif_flags;
+    if (lp_verif_flags & 2) {
+      return 0;
+    }
+  }
+#endif
   int C1_vanishes = integer_is_zero(ctx->K, coefficient_get_constant(coefficient_lc(C1)));
   int C2_vanishes = integer_is_zero(ctx->K, coefficient_get_constant(coefficient_lc(C2)));
 
